@@ -391,10 +391,27 @@ package task
 //@   ghostvar gotInactive bool = false
 //@   on call (Tasks).Filtered when !gotInactive : assert arg0 == tasks && argfunc1 == "(*core/task.Manager).doKillTasks$1"
 //@   on aftercall (Tasks).Filtered when !gotInactive : inactiveSel = result ; gotInactive = true
-//@   on call (*roster).filtered when nfilt == 0 : assert gotInactive && argfunc1 == "(*core/task.Manager).doKillTasks$2"
-//@   on call (*roster).filtered when nfilt == 1 : assert argfunc1 == "(*core/task.Manager).doKillTasks$3"
-//@   on call (*roster).filtered : assert nfilt < 2 ; nfilt = nfilt + 1
+//@   on call (*roster).retain when nfilt == 0 : assert gotInactive && argfunc1 == "(*core/task.Manager).doKillTasks$2"
+//@   on call (*roster).retain when nfilt == 1 : assert argfunc1 == "(*core/task.Manager).doKillTasks$3"
+//@   on call (*roster).retain : assert nfilt < 2 ; nfilt = nfilt + 1
 //@   on call (*Manager).doKillTask : assert nfilt == 2
+// C04 / C18 (a task owned by a live environment is never forgotten): the roster is pruned in ONE critical section of its
+// lock - a snapshot taken under the read lock and written back later (filtered + updateTasks) overwrites what another
+// environment's deployment appended in between: that task stays locked and owned but drops out of the roster, its status
+// updates are lost, it is never killed by its own teardown and a reconciliation answer for it is answered with KILL.
+//@   on call (*roster).updateTasks : assert false
+
+// retain keeps exactly the tasks the filter accepts, reading and replacing the list under one write lock
+//@ func (m *roster) retain(filter Filter)
+//@   property C04 C18
+//@   opt pure-params=filter
+//@   ghostvar held bool = false
+//@   ghostvar willUnlock bool = false
+//@   on call (*sync.RWMutex).Lock when recvfield == "mu" : assert !held ; held = true
+//@   on defer (*sync.RWMutex).Unlock when recvfield == "mu" : assert held ; willUnlock = true
+//@   on call (*sync.RWMutex).Unlock when recvfield == "mu" : held = false
+//@   on call (Tasks).Filtered : assert held && willUnlock && arg0 == m.tasks
+//@   on store task.roster.tasks : assert held && willUnlock
 
 // requested and not ACTIVE
 //@ closure (*Manager).doKillTasks #1
